@@ -129,6 +129,11 @@ func permJobs(r *ev.Run) []job {
 	add := func(name string, n, ownKey int, multiset []proch.Event, prefix []proch.Event, confluent bool) {
 		sets := [][]int{rng(0, n), rng(1, n+1)}
 		c := proch.Config{Name: name, Sets: sets, OwnKey: ownKey, Msgs: msgs()}
+		for _, e := range multiset {
+			if e.Kind == "dbclose" {
+				c.PrivateDB = true
+			}
+		}
 		ms := multiset
 		menu := func(nd *proch.Node, m *proch.Model, hist []proch.Event) []proch.Event {
 			used := make([]bool, len(ms))
@@ -246,6 +251,16 @@ func permJobs(r *ev.Run) []job {
 					back := append(append([]proch.Event{}, base...), proch.Event{Kind: "set", Set: 1}, proch.Event{Kind: "set", Set: 0}, proch.Event{Kind: "msg", M: 0}, proch.Event{Kind: "obs", G: n, D: 0})
 					if len(back) <= 7 {
 						add(name+"+set-forward-and-back", n, ownKey, back, []proch.Event{set0}, false)
+					}
+					// the store starts failing somewhere in the ordering (every later write and lookup returns the
+					// store's error): the VAA must still be broadcast at the publish point, once
+					if n <= 3 {
+						sf := append(append([]proch.Event{}, base...), proch.Event{Kind: "dbclose"})
+						add(name+"+storefails", n, ownKey, sf, []proch.Event{set0}, false)
+						if len(S) > 0 {
+							sfd := append(append([]proch.Event{}, sf...), proch.Event{Kind: "obs", G: S[0], D: 0})
+							add(name+"+storefails+dup", n, ownKey, sfd, []proch.Event{set0}, false)
+						}
 					}
 					// a set update somewhere in the ordering (not confluent by design; exactly-when is still checked)
 					su := append(append([]proch.Event{}, base...), proch.Event{Kind: "set", Set: 1}, proch.Event{Kind: "obs", G: n, D: 0})
